@@ -170,7 +170,7 @@ def run_tlc(ctx, module, cfg, workers=None, timeout=1800, simulate=None, depth=N
     tag = tag or (module + "-" + os.path.splitext(os.path.basename(cfg))[0])
     meta = ctx.path("meta-" + tag)
     workers = workers or NCPU
-    heap = os.environ.get("VERIF_TLC_HEAP") or heap or "6g"
+    heap = heap or os.environ.get("VERIF_TLC_HEAP") or "6g"
     cmd = ["java", "-XX:+UseParallelGC", "-Xss512m", "-Xmx" + heap, "-cp", TLC_JAR, "tlc2.TLC",
            "-workers", str(workers), "-metadir", meta, "-config", cfg, "-noGenerateSpecTE"]
     if not deadlock:
@@ -267,7 +267,7 @@ def read_ndjson(path):
     return out
 
 
-def judge(ctx, module, cfg, obs_path, params=None, workers=None, timeout=3600, tag=None):
+def judge(ctx, module, cfg, obs_path, params=None, workers=None, timeout=3600, tag=None, heap=None):
     """Role 3: TLC reads the observations and prints one verdict per record.
 
     The judge module reads Params!ObsFile. Verdict records are {"id","ok","sig",...}.
@@ -276,7 +276,7 @@ def judge(ctx, module, cfg, obs_path, params=None, workers=None, timeout=3600, t
     p = dict(params or {})
     p["ObsFile"] = obs_path
     write_params(ctx, p)
-    r = run_tlc(ctx, module, cfg, workers=workers, timeout=timeout, tag=tag or ("judge-" + module))
+    r = run_tlc(ctx, module, cfg, workers=workers, timeout=timeout, tag=tag or ("judge-" + module), heap=heap)
     if r.violated:
         raise Inconclusive("judge %s reported a TLC-level violation %s:\n%s" % (module, r.violated, r.stdout[-2000:]))
     return r.records
